@@ -11,7 +11,8 @@ From BT Require Import Base.Util Base.Sexp Generated.Consts Model.Merge Model.Fi
 Local Open Scope N_scope.
 
 (* MAX_FDS - 1 - 1 - (1 + 1 + max_zooms + max_zooms) * PARALLEL_CHROMS, max_zooms = 10 (bigwigmerge.rs) *)
-Definition MAX_BW_FDS : nat := 976.
+Definition MAX_BW_FDS : nat :=
+  N.to_nat (MERGE_MAX_FDS - 1 - 1 - (1 + 1 + DEFAULT_MAX_ZOOMS + DEFAULT_MAX_ZOOMS) * MERGE_PARALLEL_CHROMS).   (* = 976 *)
 
 (* ------------------------------------------------------------------ f32 bit patterns of eighths (exact range only) *)
 Definition enc_pos (p : positive) : N :=
